@@ -130,6 +130,14 @@ func VerifC08Token(h *verifh.H) {
 		hub := server.VerifOpenHub(env)
 		_, err := hub.Dsm.CreateDataset("dst", nil)
 		h.Assert(err == nil, "create dst")
+		if h.Param("firstRun", 0) == 1 {
+			// an earlier run of the same job completed: the sink already holds everything and a
+			// token is stored; the run under test (which may fail, be killed or crash) comes second
+			pl0, _ := mkPipeline(hub, -1)
+			j0 := &job{id: "job-1", title: "job-1", pipeline: pl0, runner: vRunner(hub, 1, 1)}
+			_, err := pl0.sync(j0, context.Background())
+			h.Assert(err == nil, "first run succeeds")
+		}
 		pl, sink := mkPipeline(hub, failAt)
 		j := &job{id: "job-1", title: "job-1", pipeline: pl, runner: vRunner(hub, 1, 1)}
 		ctx, cancel := context.WithCancel(context.Background())
